@@ -100,7 +100,7 @@ func newBoundsCtx(w *World, fn *ssa.Function) *boundsCtx {
 	if w.GOARCH == "386" || w.GOARCH == "arm" {
 		bc.intBits = 32
 	}
-	bc.r = NewFuncAn(w, fn).R
+	bc.r = NewRenderer(w, fn)
 	bc.computeLoadReps()
 	return bc
 }
